@@ -19,9 +19,14 @@ def handle (j : Json) : IO Unit := do
   let cl := (jarr (jget impl "clients")).getD 0 Json.null
   let cStatus := jnat (jget cl "status")
   let cBody := unhex (jstr (jget cl "body_hex"))
-  let cHdrs := sortPairs (parsePairs (jget cl "headers"))
-  let cErr := jstr (jget cl "err")
   let order := (jstrList (jget impl "order")).map (idxOf eps)
+  -- net/http's server sniffs a Content-Type when the handler set none; if the backend whose answer was relayed
+  -- (the last one contacted) sent none, the client's Content-Type is the server's own framing, not a backend header
+  let lastHasCT := match order.getLast? with
+    | some b => (eps.find? (·.idx == b)).map (fun e => e.resp.headers.any (fun h => h.1 == "Content-Type")) |>.getD true
+    | none => true
+  let cHdrs := (sortPairs (parsePairs (jget cl "headers"))).filter (fun h => lastHasCT || h.1 != "Content-Type")
+  let cErr := jstr (jget cl "err")
   -- model
   let (tr, res) := execute (selectPrio eps) (outcomeOfIn (jstr (jget sc "engine")) (jnat (jget sc "read_timeout_ms")) eps) (candidates eps)
   let mOrder := (contactedList tr).filter (fun i => (eps.find? (·.idx == i)).map (·.kind) != some "refuse")
